@@ -2034,6 +2034,11 @@ def _getlevelname(eng, st, recv, args, kwargs):
 BUILTIN_FUNCS["logging.addLevelName"] = _noop
 
 
+@bf("threading.RLock")
+def _threading_rlock(eng, st, recv, args, kwargs):
+    return eng.ok(st, st.alloc(HObj("opaque", None, meta={"tag": "lock"})))
+
+
 @bf("threading.Event")
 def _threading_event(eng, st, recv, args, kwargs):
     noop = lambda e, s, r, a, k: e.ok(s, NONE)
